@@ -34,11 +34,17 @@ def shards(tier):
 def _gen_step(ci, dom, two):
     def g(draw, w):
         roots = w.roots()
-        if not roots:
+        if not any(w.handles[i].res == 0 for i in roots):
             return {"t": "new", "r": 0, "id": w.next_id()}
-        if two and len(roots) < 2 and draw(st.integers(0, 4)) == 0:
+        if two and not any(w.handles[i].res == 1 for i in roots) and draw(st.integers(0, 4)) == 0:
             return {"t": "new", "r": 1, "id": w.next_id()}
         c = draw(st.integers(0, 19))
+        if c == 19 and w.stack and draw(st.booleans()):
+            # the user drops an object inside a class-wide context (its writes must still be flushed)
+            cand = [i for i in roots if w.obj_depth.get(i, 0) == 0
+                    and w.cls_depth.get(type(w.handles[i].real), 0) > 0]
+            if cand:
+                return {"t": "drop", "h": draw(st.sampled_from(cand))}
         if c < 3 and len(w.stack) < 4:
             return {"t": "enter_obj", "h": draw(st.sampled_from(roots))}
         if c < 5 and len(w.stack) < 4:
